@@ -44,6 +44,113 @@ def nrows_with_parent(E, t, k):
     return X.count_rs(E, mask)
 
 
+# ===========================================================================================================================
+# fixed topologies (labelled variants): the textbook decomposition over a CONCRETE parent vector, written with explicit loops and
+# independent of the library
+class Topo8:
+    def __init__(self, pids):
+        self.pids, self.n = [int(p) for p in pids], len(pids)
+
+    def kids(self, i):
+        return [j for j in range(self.n) if self.pids[j] == i]
+
+    def tips(self):
+        return [i for i in range(self.n) if not self.kids(i)]
+
+    def furcations(self):
+        return [i for i in range(self.n) if len(self.kids(i)) >= 2]
+
+    def critical(self):
+        """the root, the furcations and the tips"""
+        return sorted({0} | set(self.tips()) | set(self.furcations()))
+
+    def branches(self):
+        """maximal chains: from the root or a furcation through pass-through nodes to the next furcation or tip"""
+        out = []
+        for s in range(self.n):
+            if s == 0 or len(self.kids(s)) >= 2:
+                for c in self.kids(s):
+                    b = [s, c]
+                    while len(self.kids(b[-1])) == 1:
+                        b.append(self.kids(b[-1])[0])
+                    out.append(b)
+        return out
+
+
+def root_paths(pids):
+    """one root-to-tip node sequence per childless node"""
+    T8 = Topo8(pids)
+    out = []
+    for tip in T8.tips():
+        q = [tip]
+        while T8.pids[q[-1]] != -1:
+            q.append(T8.pids[q[-1]])
+        out.append(q[::-1])
+    return out
+
+
+def rooted_trees8(n):
+    """every parent vector of a labelled tree on 0..n-1 with root 0 (any numbering of the other nodes, parents need not come first)"""
+    import itertools
+
+    out = []
+    for ps in itertools.product(range(n), repeat=n - 1):
+        pids, ok = [-1] + list(ps), True
+        for i in range(1, n):
+            seen, j = set(), i
+            while j != 0 and j not in seen:
+                seen.add(j)
+                j = pids[j]
+            ok = ok and j == 0
+        if ok:
+            out.append(pids)
+    return out
+
+
+def shape_name(pids):
+    t = Topo8(pids)
+    k0 = len(t.kids(0))
+    kind = "single node" if t.n == 1 else ("chain" if not t.furcations() else f"root with {k0} child{'ren' if k0 != 1 else ''}")
+    if t.n > 1 and k0 == 1 and t.furcations():
+        stem = next(b for b in t.branches() if b[0] == 0)
+        kind += f", stem of {len(stem) - 1} edge{'s' if len(stem) != 2 else ''}"
+    if any(p >= i for i, p in enumerate(pids)):
+        kind += ", parents not first"
+    return f"pid={list(pids)} ({kind})"
+
+
+FIXED_SHAPES = {shape_name(p): p for n in (1, 2, 3, 4) for p in rooted_trees8(n)}  # 1 + 1 + 3 + 16 labelled trees
+for _p in ([-1, 0, 1, 2, 2, 3, 4],       # Y with a two-edge stem
+           [-1, 0, 1, 1, 2, 3, 3],       # one-edge stem into a furcation, pass-through nodes below it, a second furcation
+           [-1, 0, 0, 1, 1, 2],          # the root is a furcation
+           [-1, 0, 1, 1, 1, 2],          # trifurcation after a one-edge stem
+           [-1, 0, 1, 2, 3],             # chain of five
+           [-1, 0, 0, 0, 1, 1, 1],       # root with three children, a trifurcation below
+           [-1, 3, 1, 0, 3, 4, 4],       # furcation stored behind its children
+           [-1, 2, 3, 0, 1]):            # chain stored from the far end
+    FIXED_SHAPES[shape_name(_p)] = _p
+
+
+def fixed_topology_tree(S, pids, name="t", tag=False):
+    """a Tree whose id / pid columns are the given CONCRETE topology (id[i] = i), every other column symbolic; with `tag`, an extra
+    attribute column `tag` whose value at node i is the concrete label 100 + i (it tells which original node a row of a derived
+    table was gathered from).  Frozen: any store into it is a failed frame obligation."""
+    from contracts.common import sym_tree_fixed
+    from pyvc.values import NArr
+
+    n = len(pids)
+    t = sym_tree_fixed(S, n, name, frozen=True)
+    cols = [("id", list(range(n))), ("pid", [int(p) for p in pids])] + ([("tag", [100 + i for i in range(n)])] if tag else [])
+    for cname, vals in cols:
+        a = NArr((n,), vals, "int")
+        a.frozen = True
+        nd = t.fields["ndata"]
+        fz, nd.frozen = nd.frozen, False
+        nd.items[cname] = a
+        nd.frozen = fz
+    return t
+
+
 def register(R: Registry):
     # ================================================================ Node.is_furcation
     # property: "furcations [are] exactly the nodes with two or more children"; a child of a node is a row whose pid is
@@ -72,6 +179,7 @@ def register(R: Registry):
           requires=[("handle-in-range", handle_in_range)],
           ensures=[("true-iff-two-distinct-rows-name-this-id-as-parent", furc_two_rows),
                    ("true-iff-more-than-one-row-names-this-id-as-parent", furc_count)],
+          returns="bool",  # used through this contract at call sites (Tree.Node.branch on trees of any size)
           options=dict(OPTS, hints={"post/true-iff-two-distinct-rows-name-this-id-as-parent": furc_hint}))
 
     # ================================================================ Node.is_tip
@@ -84,6 +192,7 @@ def register(R: Registry):
           setup=lambda S: dict(self=node_obj(S, sym_tree(S, "t", frozen=True))),
           requires=[("handle-in-range", handle_in_range)],
           ensures=[("true-iff-no-row-names-this-id-as-parent", tip_post)],
+          returns="bool",
           options=dict(OPTS))
 
     # ================================================================ Tree.get_tips
@@ -395,25 +504,11 @@ def register(R: Registry):
     # pass-through nodes in between, and consecutive entries are (parent, child).  Topology (id = position, pid) is concrete
     # per variant, every other column is symbolic; furcation nodes are left out (the property does not say which of their
     # branches `branch()` reports).
-    SHAPES = {
-        "chain4": [-1, 0, 1, 2],
-        "Y-with-stem": [-1, 0, 1, 2, 2, 3, 4],
-        "root-furcation": [-1, 0, 0, 1, 1, 2],
-        "trident": [-1, 0, 1, 1, 1, 2],
-    }
+    SHAPES = dict(FIXED_SHAPES)
 
     def nb_setup(pids, x):
         def f(S):
-            from contracts.common import sym_tree_fixed
-            from pyvc.values import NArr
-
-            n = len(pids)
-            t = sym_tree_fixed(S, n, "t", frozen=True)
-            for cname, vals in (("id", list(range(n))), ("pid", list(pids))):
-                a = NArr((n,), vals, "int")
-                a.frozen = True
-                t.fields["ndata"].items[cname] = a
-            return dict(self=node_obj(S, t, idx=x), __ghost__=dict(pids=list(pids), x=x))
+            return dict(self=node_obj(S, fixed_topology_tree(S, pids), idx=x), __ghost__=dict(pids=list(pids), x=x))
 
         return f
 
@@ -433,6 +528,9 @@ def register(R: Registry):
         ok = ok and (pids[L[0]] == -1 or nch(L[0]) >= 2) and (nch(L[-1]) >= 2 or nch(L[-1]) == 0)
         ok = ok and all(nch(a) == 1 for a in L[1:-1]) and all(pids[b] == a for a, b in zip(L, L[1:]))
         ok = ok and (len(L) >= 2 or len(pids) == 1) and (L[0] != x or pids[x] == -1)
+        # the same statement through the textbook decomposition: it is THE branch that holds the edge into x (for the root: the branch it starts)
+        want = [b for b in Topo8(pids).branches() if x in (b if pids[x] == -1 else b[1:])]
+        ok = ok and (len(pids) == 1 or (len(want) == 1 and list(want[0]) == list(L)))
         return bool(ok)
 
     nb_variants = {}
@@ -441,13 +539,13 @@ def register(R: Registry):
             k = sum(1 for p in pids if p == x)
             if k >= 2:
                 continue
-            nb_variants[f"{sname} pid={pids} node {x} ({'tip' if k == 0 else 'pass-through'})"] = nb_setup(pids, x)
+            nb_variants[f"{sname} node {x} ({'tip' if k == 0 else 'pass-through'})"] = nb_setup(pids, x)
 
     R.add(f"{TREE}:Tree.Node.branch", prop="C08",
           variants=nb_variants,
           ensures=[("the-branch-through-the-node-root-or-furcation-to-furcation-or-tip-pass-through-inside", nb_post)],
-          notes="fixed concrete topologies (4 shapes, every non-furcation node); the is_furcation / is_tip / parent / children calls are inlined from the current source",
-          options=dict(OPTS))
+          notes="fixed concrete topologies (every labelled rooted tree of 1-4 nodes in any numbering, and 8 larger shapes; every non-furcation node); the is_furcation / is_tip / parent / children calls are inlined from the current source",
+          options=dict(OPTS, inline_calls=[":Node.is_furcation", ":Node.is_tip"]))
 
 
 # ===========================================================================================================================
@@ -1160,9 +1258,13 @@ def register_whole(R):
         st2("every-branch-ends-at-a-node-that-has-not-exactly-one-child", z3.ForAll([i], z3.Implies(ini, z3.And(ctx.R(at(i, sel(LEN, i) - 1)), ctx.nkids(at(i, sel(LEN, i) - 1)) != 1)), patterns=[sel(LEN, i)]))
         st2("every-interior-node-of-a-branch-has-exactly-one-child", z3.ForAll([i, j], z3.Implies(z3.And(ini, 1 <= j, j < sel(LEN, i) - 1), z3.And(ctx.R(at(i, j)), ctx.nkids(at(i, j)) == 1)), patterns=[at(i, j)]))
 
-    def gbw_hint_mapping(E, vars):
+    def gbw_hint_mapping(which):
+        return lambda E, vars: gbw_hint_mapping_(E, vars, which)
+
+    def gbw_hint_mapping_(E, vars, which):
         """which branch of the traversal a branch of the result is (the result is the traversal's list, or that list with the closing branch
-        appended, reversed)"""
+        appended, reversed).  "closing": only the step about the branch that closes the pending chain of the root (all that the clause
+        `pending-chain-of-more-than-one-node-closed-root-first` needs: its proof must not rest on the steps about the OTHER branches)."""
         res = E.ghost["gb-result"]
         IDX, LEN, m = res.cols[0], res.cols[1], zint(res.n)
         lc, hn = hlc9(0), hn9(0)
@@ -1171,9 +1273,11 @@ def register_whole(R):
         at = lambda a, b: sel(sel(IDX, a), b)
         ri = ite(closing, hn - i, i)
         other = z3.And(0 <= i, i < m, z3.Not(z3.And(closing, i == 0)))
-        if z3.is_true(closing):
-            E.prove("Tree.get_branches/step/the-first-branch-of-the-result-closes-the-pending-chain-of-the-root-root-first",
-                    z3.And(m == hn + 1, sel(LEN, 0) == lc, z3.ForAll([j], z3.Implies(z3.And(0 <= j, j < lc), at(0, j) == hc9(0, lc - 1 - j)), patterns=[at(0, j)])), "annotation")
+        if which == "closing":
+            if z3.is_true(closing):
+                E.prove("Tree.get_branches/step/the-first-branch-of-the-result-closes-the-pending-chain-of-the-root-root-first",
+                        z3.And(m == hn + 1, sel(LEN, 0) == lc, z3.ForAll([j], z3.Implies(z3.And(0 <= j, j < lc), at(0, j) == hc9(0, lc - 1 - j)), patterns=[at(0, j)])), "annotation")
+            return
         E.prove("Tree.get_branches/step/a-branch-other-than-the-closing-one-is-a-branch-of-the-traversal",
                 z3.And(z3.ForAll([i], z3.Implies(other, z3.And(0 <= ri, ri < hn, sel(LEN, i) == hLEN9(0, ri))), patterns=[sel(LEN, i)]),
                        z3.ForAll([i, j], z3.Implies(z3.And(other, 0 <= j, j < sel(LEN, i)), at(i, j) == hB9(0, ri, j)), patterns=[at(i, j)])), "annotation")
@@ -1249,7 +1353,9 @@ def register_whole(R):
             voc = [ctx.P, ctx.n, res.cols[0], res.cols[1], zint(res.n)] + ([ctx.nkids, col(t, "id").arr] if kind == "shape" else [hn9, hlc9, hLEN9, hB9, hc9] if kind == "map" else list(g9(vars)) + [hn9, hlc9])
             if kind == "ends":
                 voc += [ctx.nkids, col(t, "id").arr]
-            X.prove_in_vocabulary(E, f"Tree.get_branches/step/{which}-from-the-steps", E.ghost[("gb-post", which)], voc)
+            # THE postcondition, under its own name and kind: when the steps no longer carry it, the clause of the property fails (not a proof step)
+            # (simplified as the engine simplifies a clause: the clause's own obligation then finds the very same term among its hypotheses)
+            X.prove_in_vocabulary(E, f"Tree.get_branches/post/{which}", z3.simplify(E.ghost[("gb-post", which)]), voc, kind="postcondition", note="from the proof steps")
 
         return f
 
@@ -1263,8 +1369,8 @@ def register_whole(R):
           ensures=[(w, gbw_post(w)) for w in GBW],
           inlined_loops={f"{TREE}:Tree.get_branches.<locals>.collect_branches": {0: CB_LOOP}},
           options=dict(OPTS, traverse_rule=Rule(gb_J, Ql=gb_Ql, modifies=["G9"], leave_kind=gb_leave_kind, leave_args=gb_leave_args, ghost_leave=gb_ghost_leave2),
-                       hints={"post/pending-chain-of-more-than-one-node-closed-root-first": gbw_then_post("pending-chain-of-more-than-one-node-closed-root-first", gbw_hint_mapping, kind="map"),
-                              "post/every-branch-of-the-traversal-kept": gbw_then_post("every-branch-of-the-traversal-kept", kind="map"),
+                       hints={"post/pending-chain-of-more-than-one-node-closed-root-first": gbw_then_post("pending-chain-of-more-than-one-node-closed-root-first", gbw_hint_mapping("closing"), kind="map"),
+                              "post/every-branch-of-the-traversal-kept": gbw_then_post("every-branch-of-the-traversal-kept", gbw_hint_mapping("others"), kind="map"),
                               "post/every-branch-starts-at-the-root-or-a-furcation": gbw_then_post("every-branch-starts-at-the-root-or-a-furcation", gbw_hint),
                               "post/every-branch-ends-at-a-furcation-or-a-tip": gbw_then_post("every-branch-ends-at-a-furcation-or-a-tip"),
                               "post/interior-nodes-are-pass-through": gbw_then_post("interior-nodes-are-pass-through"),
@@ -1275,6 +1381,123 @@ def register_whole(R):
                               "post/every-tip-and-furcation-other-than-the-root-ends-a-branch": gbw_then_post("every-tip-and-furcation-other-than-the-root-ends-a-branch", gbw_hint_ends, kind="ends"),
                               "post/every-branch-starts-at-the-root-or-where-another-branch-ends": gbw_then_post("every-branch-starts-at-the-root-or-where-another-branch-ends", kind="ends")}),
           notes="whole function, trees of any size (traverse client rule with (list of branches, chain) leave values; loop of the callback cut at an invariant); the input tree is frozen")
+
+
+    # ================================================================ Tree.Node.branch as a whole (trees of any size)
+    # For a node x that is not a furcation the result is THE branch that holds the edge into x (for a one-child root: the branch it
+    # starts): it contains x, consecutive entries are (parent, child), it starts at the root or a furcation, ends at a furcation or a
+    # tip and has only pass-through nodes in between.  (A furcation ends one branch and starts others; the property does not say which
+    # of them `branch()` reports.)  Ghost: `depth` (every node reaches the root) and `ht8` (a height witness: finite trees have one).
+    ht8 = z3.Function("ht8", I_, I_)
+
+    def nbw_setup(S):
+        t = wf_tree8(S)
+        n, P = nof(t), col(t, "pid").arr
+        x, i = S.int("x"), z3.Int(fresh_name("i"))
+        S.assume(z3.And(x.z >= 0, x.z < n))
+        S.assume(z3.ForAll([i], z3.Implies(z3.And(i >= 0, i < n), ht8(i) >= 0), patterns=[ht8(i)]))
+        S.assume(z3.ForAll([i], z3.Implies(z3.And(i > 0, i < n), ht8(sel(P, i)) > ht8(i)), patterns=[ht8(sel(P, i))]))
+        S.eng.assumptions.add("ghost witnesses of a well-formed input tree (preconditions): depth(0) = 0, depth(i) = depth(parent of i) + 1 (every node reaches the root); "
+                              "ht8(i) >= 0, ht8(parent of i) > ht8(i) (a height function: every finite tree has one, tools/xcheck_c08_models.py)")
+        return dict(self=node_obj(S, t, idx=x))
+
+    def nbw_vocab(E, v, name="ns"):
+        from pyvc.ext_C07 import NodeList
+
+        s = v["self"]
+        t = s.fields["attach"]
+        ns = v.get(name)
+        x = to_z3(s.fields["idx"], "int")
+        if isinstance(ns, PList) and ns.items is not None and all(isinstance(h, Obj) and h.fields.get("attach") is t and "idx" in h.fields for h in ns.items):
+            A = z3.K(I_, z3.IntVal(0))  # a concrete list of handles (before the loop promotes it)
+            for k, h in enumerate(ns.items):
+                A = z3.Store(A, k, to_z3(h.fields["idx"], "int"))
+            return t, col(t, "pid").arr, nof(t), x, A, z3.IntVal(len(ns.items))
+        if not (isinstance(ns, NodeList) and ns.attach is t and ns.items is None):
+            raise X.Unsupported("Tree.Node.branch: `ns` is not a list of node handles on the tree")
+        return t, col(t, "pid").arr, nof(t), x, ns.cols[0], zint(ns.n)
+
+    def nbw_inv0(which):
+        def f(E, v, o):
+            t, P, n, x, A, L = nbw_vocab(E, v)
+            j = z3.Int(fresh_name("j"))
+            if which == "starts-at-the-node":
+                return z3.And(L >= 1, sel(A, 0) == x)
+            if which == "nodes-in-range-one-level-up-per-step":
+                return z3.ForAll([j], z3.Implies(z3.And(0 <= j, j < L), z3.And(0 <= sel(A, j), sel(A, j) < n, d8(sel(A, j)) == d8(x) - j)), patterns=[sel(A, j)])
+            if which == "climbs-from-child-to-parent-through-nodes-that-are-no-furcations":
+                return z3.ForAll([j], z3.Implies(z3.And(0 <= j, j < L - 1), z3.And(sel(P, sel(A, j)) == sel(A, j + 1), z3.Not(two_rows(t, sel(A, j))))), patterns=[sel(A, j)])
+            raise KeyError(which)
+
+        return f
+
+    def nbw_inv1(which):
+        def f(E, v, o):
+            t, P, n, x, B, M = nbw_vocab(E, v)
+            j, r = z3.Int(fresh_name("j")), z3.Int(fresh_name("r"))
+            b0 = sel(B, 0)
+            dx = d8(x) - d8(b0)
+            if which == "not-empty":
+                return M >= 1
+            if which == "nodes-in-range-one-level-down-per-step":
+                return z3.ForAll([j], z3.Implies(z3.And(0 <= j, j < M), z3.And(0 <= sel(B, j), sel(B, j) < n, d8(sel(B, j)) == d8(b0) + j)), patterns=[sel(B, j)])
+            if which == "descends-from-parent-to-child":
+                return z3.ForAll([j], z3.Implies(z3.And(1 <= j, j < M), sel(P, sel(B, j)) == sel(B, j - 1)), patterns=[sel(B, j)])
+            if which == "nodes-in-between-are-no-furcations":
+                return z3.ForAll([j], z3.Implies(z3.And(1 <= j, j < M - 1), z3.Not(two_rows(t, sel(B, j)))), patterns=[sel(B, j)])
+            if which == "starts-at-the-root-or-a-furcation":
+                return z3.Or(b0 == 0, two_rows(t, b0))
+            if which == "holds-the-node-below-the-start-unless-it-is-the-root":
+                return z3.And(0 <= dx, dx < M, sel(B, dx) == x, z3.Implies(x != 0, dx >= 1))
+            raise KeyError(which)
+
+        return f
+
+    def nbw_post(which):
+        def f(E, v, o):
+            from swcgeom.core.tree import Tree
+
+            s, res = o["self"], v["result"]
+            t = s.fields["attach"]
+            if not (isinstance(res, Obj) and res.cls is Tree.Branch and isinstance(res.fields.get("idx"), SArr)):
+                return False
+            if which == "a-branch-on-this-tree":
+                return res.fields.get("attach") is v["self"].fields["attach"] and res.fields.get("names") is t.fields["names"] and res.fields["idx"].uid not in E.entry_uids
+            P, n, x = col(t, "pid").arr, nof(t), to_z3(s.fields["idx"], "int")
+            B, M = res.fields["idx"].arr, res.fields["idx"].nz()
+            j, r = z3.Int(fresh_name("j")), z3.Int(fresh_name("r"))
+            dx = d8(x) - d8(sel(B, 0))
+            if which == "holds-the-node-below-its-first-entry-unless-the-node-is-the-root":
+                return z3.And(M >= 1, 0 <= dx, dx < M, sel(B, dx) == x, z3.Implies(x != 0, dx >= 1))
+            if which == "consecutive-entries-are-parent-and-child":
+                return z3.ForAll([j], z3.Implies(z3.And(0 <= j, j < M), z3.And(0 <= sel(B, j), sel(B, j) < n, z3.Implies(j >= 1, sel(P, sel(B, j)) == sel(B, j - 1)))))
+            if which == "starts-at-the-root-or-a-furcation":
+                return z3.Or(sel(B, 0) == 0, two_rows(t, sel(B, 0)))
+            if which == "ends-at-a-furcation-or-a-tip":
+                return z3.Or(two_rows(t, sel(B, M - 1)), no_child(t, sel(B, M - 1)))
+            if which == "interior-nodes-are-pass-through":  # the only row that names an interior entry as parent is the next entry
+                return z3.ForAll([j, r], z3.Implies(z3.And(1 <= j, j < M - 1, 0 <= r, r < n, sel(P, r) == sel(B, j)), r == sel(B, j + 1)))
+            if which == "has-an-edge-unless-the-node-is-a-childless-root":
+                return z3.Or(M >= 2, z3.And(x == 0, no_child(t, x)))
+            raise KeyError(which)
+
+        return f
+
+    NBW0 = ["starts-at-the-node", "nodes-in-range-one-level-up-per-step", "climbs-from-child-to-parent-through-nodes-that-are-no-furcations"]
+    NBW1 = ["not-empty", "nodes-in-range-one-level-down-per-step", "descends-from-parent-to-child", "nodes-in-between-are-no-furcations", "starts-at-the-root-or-a-furcation",
+            "holds-the-node-below-the-start-unless-it-is-the-root"]
+    NBWP = ["a-branch-on-this-tree", "holds-the-node-below-its-first-entry-unless-the-node-is-the-root", "consecutive-entries-are-parent-and-child", "starts-at-the-root-or-a-furcation",
+            "ends-at-a-furcation-or-a-tip", "interior-nodes-are-pass-through", "has-an-edge-unless-the-node-is-a-childless-root"]
+    from pyvc.ext_C07 import node_handles
+
+    R.add(f"{TREE}:Tree.Node.branch", prop="C08", setup=nbw_setup,
+          requires=[("the-node-is-not-a-furcation", lambda E, v, o: z3.Not(two_rows(v["self"].fields["attach"], to_z3(v["self"].fields["idx"], "int"))))],
+          ensures=[(w, nbw_post(w)) for w in NBWP],
+          loops={0: dict(invariant=[(w, nbw_inv0(w)) for w in NBW0], types={"ns": node_handles}, decreases="depth(ns[len_(ns) - 1].idx)"),
+                 1: dict(invariant=[(w, nbw_inv1(w)) for w in NBW1], types={"ns": node_handles}, decreases="ht8(ns[len_(ns) - 1].idx)")},
+          ghost_funcs=dict(depth=(["int"], "int"), ht8=(["int"], "int")),
+          options=dict(OPTS),
+          notes="whole function, trees of any size (ids = positions, node 0 the root, parents need not come first); Node.is_furcation / Node.is_tip are used through their contracts; the input tree is frozen")
 
     # ================================================================ BranchTree.get_origin_node_branches / get_origin_branches
     # "[the branch tree] remembers each original branch's points": the two read accessors of the `branches` registry (start node -> the
@@ -1358,6 +1581,259 @@ def _fresh_lll(E, K):
     return a, a.get
 
 
+# ===========================================================================================================================
+# the branch tree on fixed topologies: "The branch tree has exactly the root, furcations and tips as nodes, joined as the branches join
+# them, and remembers each original branch's points."
+INLINE8 = ["swc_utils/base.py:traverse", "swc_utils/base.py:_traverse_dfs", ":Tree.traverse", ":Tree.Node.traverse", ":to_sub_topology", ":Tree.get_branches",
+           ":Tree.Node.parent", ":Tree.Node.children", ":Node.is_furcation", ":Node.is_tip", ":BranchTree.from_tree", ":Tree.get_paths", ":Path.length"]
+
+
+def register_branch_tree(R):
+    from pyvc.values import NArr, PDict
+
+    BT = "swcgeom/core/branch_tree.py"
+    TT = "swcgeom/transforms/tree.py"
+
+    def ints(a):
+        """the entries of a concrete 1-D int array, else None"""
+        if isinstance(a, NArr) and a.ndim == 1 and all(isinstance(x, int) and not isinstance(x, bool) for x in a.items):
+            return list(a.items)
+        return None
+
+    def bt_view(E, v, o, tree="tree"):
+        """(input tree, its parent vector, result, columns of the result, original node behind every row of the result) or None"""
+        from swcgeom.core.branch_tree import BranchTree
+
+        t, res = o[tree], v["result"]
+        if not (isinstance(res, Obj) and res.cls is BranchTree and isinstance(res.fields.get("ndata"), PDict) and res.fields["ndata"].items is not None):
+            return None
+        cols = res.fields["ndata"].items
+        tag = ints(cols.get("tag"))
+        if tag is None or any(not isinstance(a, NArr) or a.ndim != 1 or len(a.items) != len(tag) for a in cols.values()):
+            return None
+        return t, ints(col(t, "pid")), res, cols, [x - 100 for x in tag]
+
+    def remembered(res):
+        """[(key, original node sequence, Branch object)] of the `branches` registry, or None"""
+        from swcgeom.core.branch import Branch
+
+        d = res.fields.get("branches")
+        if not (isinstance(d, PDict) and d.items is not None):
+            return None
+        out = []
+        for key, lst in d.items.items():
+            if not (isinstance(key, int) and isinstance(lst, PList) and lst.items is not None):
+                return None
+            for b in lst.items:
+                if not (isinstance(b, Obj) and issubclass(b.cls, Branch) and isinstance(b.fields.get("attach"), Obj) and isinstance(b.fields["attach"].fields.get("ndata"), PDict)):
+                    return None
+                bc = b.fields["attach"].fields["ndata"].items
+                tag, idx = ints(bc.get("tag")) if bc is not None else None, ints(b.fields.get("idx"))
+                if tag is None or idx is None or any(not isinstance(a, NArr) or a.ndim != 1 or len(a.items) != len(tag) for a in bc.values()):
+                    return None
+                out.append((key, [x - 100 for x in tag], b))
+        return out
+
+    def bt_post(which, tree="tree"):
+        def f(E, v, o):
+            vw = bt_view(E, v, o, tree)
+            if vw is None:
+                return False
+            t, pids, res, cols, olds = vw
+            T8, m = Topo8(pids), len(olds)
+            orig = t.fields["ndata"].items
+            if which == "a-branch-tree-with-the-columns-of-the-tree-on-fresh-storage":
+                return (list(cols) == list(orig) and all(a.root().uid not in E.entry_uids for a in cols.values()) and res.uid not in E.entry_uids
+                        and res.fields.get("names") is t.fields["names"] and res.fields.get("source") == t.fields["source"])
+            if which == "nodes-are-exactly-the-root-the-furcations-and-the-tips-each-once":
+                return sorted(olds) == T8.critical()
+            if which == "every-attribute-of-a-node-is-that-of-the-original-node":
+                if any(not (0 <= a < T8.n) for a in olds):
+                    return False
+                return z3.And(*[to_z3(cols[c].items[k], cols[c].kind) == to_z3(orig[c].items[olds[k]], cols[c].kind) for c in cols if c not in ("id", "pid") for k in range(m)] + [z3.BoolVal(True)])
+            ids, ps = ints(cols["id"]), ints(cols["pid"])
+            if ids is None or ps is None:
+                return False
+            if which == "ids-are-positions-the-root-comes-first":
+                return ids == list(range(m)) and m >= 1 and ps[0] == -1 and olds[0] == 0 and all(0 <= q < m for q in ps[1:])
+            if which == "one-edge-per-branch-from-its-first-to-its-last-node":
+                if not all(0 <= q < m for q in ps[1:]):
+                    return False
+                return sorted((olds[ps[k]], olds[k]) for k in range(1, m)) == sorted((b[0], b[-1]) for b in T8.branches())
+            rem = remembered(res)
+            if rem is None:
+                return False
+            if which == "remembers-exactly-the-branches-of-the-tree-each-once":
+                return sorted(seq for _, seq, _ in rem) == sorted(T8.branches())
+            if which == "every-branch-is-filed-under-the-branch-tree-node-of-its-first-point":
+                return all(0 <= key < m and seq and olds[key] == seq[0] for key, seq, _ in rem)
+            if which == "a-remembered-branch-keeps-the-points-of-the-original-branch":
+                out = []
+                for key, seq, b in rem:
+                    bc = b.fields["attach"].fields["ndata"].items
+                    if ints(b.fields["idx"]) != list(range(len(seq))) or any(not (0 <= a < T8.n) for a in seq) or list(bc) != list(orig):
+                        return False
+                    if ints(bc["id"]) != list(range(len(seq))) or ints(bc["pid"]) != list(range(-1, len(seq) - 1)):
+                        return False  # a detached branch is numbered 0.. along itself
+                    out += [to_z3(bc[c].items[j], bc[c].kind) == to_z3(orig[c].items[seq[j]], bc[c].kind) for c in bc if c not in ("id", "pid") for j in range(len(seq))]
+                return z3.And(*out + [z3.BoolVal(True)])
+            if which == "remembered-branches-are-detached-copies":
+                return all(b.fields["attach"] is not v[tree] and b.fields["attach"].uid not in E.entry_uids
+                           and all(a.root().uid not in E.entry_uids for a in b.fields["attach"].fields["ndata"].items.values()) for _, _, b in rem)
+            raise KeyError(which)
+
+        return f
+
+    BTP = ["a-branch-tree-with-the-columns-of-the-tree-on-fresh-storage", "nodes-are-exactly-the-root-the-furcations-and-the-tips-each-once",
+           "every-attribute-of-a-node-is-that-of-the-original-node", "ids-are-positions-the-root-comes-first", "one-edge-per-branch-from-its-first-to-its-last-node",
+           "remembers-exactly-the-branches-of-the-tree-each-once", "every-branch-is-filed-under-the-branch-tree-node-of-its-first-point",
+           "a-remembered-branch-keeps-the-points-of-the-original-branch", "remembered-branches-are-detached-copies"]
+    NOTE = ("fixed concrete topologies (every labelled rooted tree of 1-4 nodes in any numbering, and 8 larger shapes); type / x / y / z / r of every node are symbolic, an extra "
+            "attribute column `tag` carries the label 100 + i of node i; get_branches, the traversal, to_sub_topology, Tree.__init__ and Branch.detach are executed from their current source; the input tree is frozen")
+
+    def ft_setup(pids):
+        def f(S):
+            from swcgeom.core.branch_tree import BranchTree
+
+            return dict(cls=BranchTree, tree=fixed_topology_tree(S, pids, tag=True))
+
+        return f
+
+    R.add(f"{BT}:BranchTree.from_tree", prop="C08", variants={nm: ft_setup(p) for nm, p in FIXED_SHAPES.items()},
+          ensures=[(w, bt_post(w)) for w in BTP], notes=NOTE, options=dict(OPTS, inline_calls=INLINE8))
+
+    def tb_setup(pids):
+        def f(S):
+            from swcgeom.transforms.tree import ToBranchTree
+
+            return dict(self=S.obj(ToBranchTree), x=fixed_topology_tree(S, pids, tag=True))
+
+        return f
+
+    R.add(f"{TT}:ToBranchTree.__call__", prop="C08", variants={nm: tb_setup(p) for nm, p in FIXED_SHAPES.items()},
+          ensures=[(w, bt_post(w, "x")) for w in BTP], notes=NOTE, options=dict(OPTS, inline_calls=INLINE8))
+
+    # ================================================================ Tree.get_branches / get_paths / get_tips / get_furcations on the fixed topologies
+    # The whole-function contracts above hold for trees of any size; here the same functions are EXECUTED on every small labelled tree (the
+    # quantifier's "roots with one, two or many children, single-node trees and unbranched chains" by name) and compared with the textbook
+    # decomposition, so that a failure comes with the shape it fails on.
+    def seqs_of(res, t, cls):
+        """node sequences of a concrete list of Path/Branch objects of class `cls` attached to t, else None"""
+        if not (isinstance(res, PList) and res.items is not None):
+            return None
+        out = []
+        for b in res.items:
+            if not (isinstance(b, Obj) and b.cls is cls and b.fields.get("attach") is t and ints(b.fields.get("idx")) is not None):
+                return None
+            out.append(ints(b.fields["idx"]))
+        return out
+
+    def handles_of(res, t):
+        from swcgeom.core.tree import Tree
+
+        if not (isinstance(res, PList) and res.items is not None and all(isinstance(h, Obj) and h.cls is Tree.Node and h.fields.get("attach") is t and isinstance(h.fields.get("idx"), int) for h in res.items)):
+            return None
+        return [h.fields["idx"] for h in res.items]
+
+    def fx_post(which):
+        def f(E, v, o):
+            from swcgeom.core.tree import Tree
+
+            t, res = v["self"], v["result"]
+            T8 = Topo8(ints(col(t, "pid")))
+            if which == "branches":
+                got = seqs_of(res, t, Tree.Branch)
+                return got is not None and sorted(got) == sorted(T8.branches())
+            if which == "paths":
+                got = seqs_of(res, t, Tree.Path)
+                return got is not None and sorted(got) == sorted(root_paths(T8.pids))
+            got = handles_of(res, t)
+            return got is not None and sorted(got) == (T8.tips() if which == "tips" else T8.furcations())
+
+        return f
+
+    def fx_setup(pids):
+        return lambda S: dict(self=fixed_topology_tree(S, pids))
+
+    FXN = "fixed concrete topologies (every labelled rooted tree of 1-4 nodes in any numbering, and 8 larger shapes); the traversal is executed from its current source; the input tree is frozen"
+    for meth, which, lab in (("get_branches", "branches", "exactly-the-maximal-chains-from-the-root-or-a-furcation-through-pass-through-nodes-to-a-furcation-or-tip-each-once"),
+                             ("get_paths", "paths", "exactly-one-root-to-tip-path-per-tip"),
+                             ("get_tips", "tips", "exactly-the-childless-nodes-each-once"),
+                             ("get_furcations", "furcations", "exactly-the-nodes-with-two-or-more-children-each-once")):
+        R.add(f"{TREE}:Tree.{meth}", prop="C08", variants={nm: fx_setup(p) for nm, p in FIXED_SHAPES.items()},
+              ensures=[(lab, fx_post(which))], notes=FXN, options=dict(OPTS, inline_calls=INLINE8))
+
+    # ================================================================ ToLongestPath.__call__ on fixed topologies
+    # "There is exactly one root-to-tip path per tip": the transform returns one of these paths, one of maximal length, with the original points.
+    def lp_setup(pids, detach):
+        def f(S):
+            from swcgeom.transforms.tree import ToLongestPath
+
+            return dict(self=S.obj(ToLongestPath, detach=detach), x=fixed_topology_tree(S, pids, tag=True))
+
+        return f
+
+    def lp_view(E, v, o):
+        """(tree, parent vector, original node sequence of the result, columns the result reads its points from, row of each entry) or None"""
+        from swcgeom.core.path import Path
+
+        t, res = o["x"], v["result"]
+        if not (isinstance(res, Obj) and issubclass(res.cls, Path) and isinstance(res.fields.get("attach"), Obj)):
+            return None
+        att, idx = res.fields["attach"], ints(res.fields.get("idx"))
+        nd = att.fields.get("ndata")
+        if idx is None or not isinstance(nd, PDict) or nd.items is None:
+            return None
+        tag = ints(nd.items.get("tag"))
+        if tag is None or any(not (0 <= a < len(tag)) for a in idx):
+            return None
+        return t, ints(col(t, "pid")), [tag[a] - 100 for a in idx], nd.items, idx, att
+
+    def path_len(E, t, seq):
+        X_, Y_, Z_ = (col(t, c).items for c in "xyz")
+        tot = z3.RealVal(0)
+        for a, b in zip(seq, seq[1:]):
+            d2 = sum((to_z3(c[b], "real") - to_z3(c[a], "real")) * (to_z3(c[b], "real") - to_z3(c[a], "real")) for c in (X_, Y_, Z_))
+            tot = tot + to_z3(E.sqrt(Sym(d2, "real"), nonneg_known=True), "real")
+        return tot
+
+    def lp_post(which):
+        def f(E, v, o):
+            vw = lp_view(E, v, o)
+            if vw is None:
+                return False
+            t, pids, seq, cols, idx, att = vw
+            orig = t.fields["ndata"].items
+            if which == "a-root-to-tip-path-of-the-tree":
+                return seq in root_paths(pids)
+            if which == "no-root-to-tip-path-is-longer":
+                if seq not in root_paths(pids):
+                    return False
+                mine = path_len(E, t, seq)
+                return z3.And(*[mine >= path_len(E, t, q) for q in root_paths(pids) if q != seq] + [z3.BoolVal(True)])
+            if which == "keeps-the-original-points":
+                if list(cols) != list(orig) or any(not (0 <= a < len(pids)) for a in seq):
+                    return False
+                return z3.And(*[to_z3(cols[c].items[a], cols[c].kind) == to_z3(orig[c].items[b], cols[c].kind) for c in cols if c not in ("id", "pid") for a, b in zip(idx, seq)] + [z3.BoolVal(True)])
+            if which == "detached-iff-asked":
+                det = o["self"].fields["detach"]
+                if det:
+                    return att is not v["x"] and att.uid not in E.entry_uids and all(a.root().uid not in E.entry_uids for a in cols.values())
+                return att is v["x"]
+            raise KeyError(which)
+
+        return f
+
+    LP_SHAPES = {nm: p for nm, p in FIXED_SHAPES.items() if len(Topo8(p).tips()) <= 3}
+    R.add(f"{TT}:ToLongestPath.__call__", prop="C08",
+          variants={f"detach={d}, {nm}": lp_setup(p, d) for nm, p in LP_SHAPES.items() for d in (True, False)},
+          ensures=[(w, lp_post(w)) for w in ("a-root-to-tip-path-of-the-tree", "no-root-to-tip-path-is-longer", "keeps-the-original-points", "detached-iff-asked")],
+          notes="fixed concrete topologies with at most three tips (coordinates symbolic, lengths over the reals: one ghost square root per segment); get_paths, the traversal, "
+                "Path.length, np.argmax (first maximum, decided by forking) and Path.detach are executed from their current source; the input tree is frozen",
+          options=dict(OPTS, inline_calls=INLINE8))
+
+
 def register(R):  # noqa: F811
     _reg8(R)
     register_whole(R)
+    register_branch_tree(R)
